@@ -80,3 +80,8 @@ def nontrivial(prop, case):
     except Exception:
         return False
     return True
+
+
+def heap_variants(prop, case):
+    h = _h(case)
+    return [{"via0": "flat", "spelling": "plain"}, {"via0": RVIAS[h % len(RVIAS)], "spelling": ["plain", "tuple", "empty"][(h // 16) % 3]}]
